@@ -75,6 +75,23 @@ void __wrap_lrtr_dbg(const char *frmt, ...)
 	(void)frmt;
 }
 
+/* ---------- the signer's nonce: `sigclass <min> <max>` makes every ECDSA_sign of the library re-draw its nonce until the DER
+ * signature's length lies in [min, max] (0 0 = take what comes).  A P-256 signature is 70..72 bytes in 99.6 % of the draws, but
+ * shorter whenever r or s has leading zero bytes: the short ones are as valid as the others. ---------- */
+static unsigned int sig_min, sig_max;
+int __real_ECDSA_sign(int type, const unsigned char *dgst, int dlen, unsigned char *sig, unsigned int *siglen, EC_KEY *eckey);
+int __wrap_ECDSA_sign(int type, const unsigned char *dgst, int dlen, unsigned char *sig, unsigned int *siglen, EC_KEY *eckey)
+{
+	int rc = 0;
+
+	for (int tries = 0; tries < 400000; tries++) {
+		rc = __real_ECDSA_sign(type, dgst, dlen, sig, siglen, eckey);
+		if (rc != 1 || sig_max == 0 || (*siglen >= sig_min && *siglen <= sig_max))
+			break;
+	}
+	return rc;
+}
+
 static void cap_reset(void)
 {
 	for (int i = 0; i < ncap; i++)
@@ -446,6 +463,12 @@ int main(void)
 			puthex(get_stream_start(s), get_stream_size(s));
 			printf("\n");
 			free_stream(s);
+		} else if (strcmp(cmd, "sigclass") == 0) {
+			char *a = strtok(NULL, " \t\r\n"), *b = strtok(NULL, " \t\r\n");
+
+			sig_min = a ? (unsigned int)atoi(a) : 0;
+			sig_max = b ? (unsigned int)atoi(b) : 0;
+			printf("sigclass %u %u\n", sig_min, sig_max);
 		} else if (strcmp(cmd, "codes") == 0) {
 			printf("codes NOT_VALID=%d VALID=%d SUCCESS=%d ERROR=%d LOAD_PUB_KEY_ERROR=%d LOAD_PRIV_KEY_ERROR=%d "
 			       "ROUTER_KEY_NOT_FOUND=%d SIGNING_ERROR=%d UNSUPPORTED_ALGORITHM_SUITE=%d UNSUPPORTED_AFI=%d "
